@@ -28,6 +28,14 @@ def g_merge(prop, bound, arity, sample=None, seed=0):
                 exhaustive=ex, tasks=[dict(module='contracts.merge', want=[prop], args=dict(shapes_=list(c))) for c in combos])
 
 
+def g_merge_bare(prop, bound):
+    """merge whose first input carries no provenance (assembled by hand): frame clauses only"""
+    shs = harness.shapes(*bound)
+    T = [dict(shapes_=[a, b], bare_first=True) for a in shs for b in shs] + [dict(shapes_=[a, b, a], bare_first=True) for a in shs[:6] for b in shs[:12]]
+    return dict(name='merge/first input without provenance', bound=bound_text(bound), exhaustive=True,
+                tasks=[dict(module='contracts.merge', want=[prop], args=a, cross=False) for a in T])
+
+
 def g_merge_laws(prop, bound, bound3, sample3=None, seed=0):
     shs = harness.shapes(*bound)
     T = [dict(shapes_=[s], mode=m) for s in shs for m in ('unary', 'idem', 'neutral_l', 'neutral_r', 'roundtrip', 'roundtrip_sources')]
@@ -76,6 +84,7 @@ def g_retrieval(prop):
     for kind in ('function', 'instance'):
         for node in ('FunctionDef', 'Assign'):
             T.append(dict(mode='forged', kind=kind, node=node))
+    T += [dict(mode='af_function_ua', shape=sh) for sh in DEF_SHAPES]
     for same in (0, 1):
         for part in (0, 1):
             for two, one in ((0, 0), (0, 1), (1, 0)):
@@ -213,6 +222,8 @@ def plan(prop, tier, seed=0):
         if not q:
             G += [g_partial(prop, (1, 2, 1, 3), 3)]
     elif prop in ('C08', 'C10', 'C11', 'C15', 'C16'):
+        if prop in ('C16', 'C08'):
+            G += [g_merge_bare(prop, (1, 1, 1, 2))]
         G += [g_merge(prop, B2, 2), g_merge(prop, B3, 3, 150 if q else 4000, seed), g_mask(prop, B1, 1), g_embed(prop, B3 if q else B2, 'embed'),
               g_forwards(prop, BS, 1, 60 if q else 1200, seed)]
         if prop in ('C08', 'C10', 'C11'):
@@ -249,6 +260,11 @@ def plan(prop, tier, seed=0):
         G += [g_forwards(prop, BS, 1, 60 if q else 1200, seed)]      # narrowing: every element of discovery only accepts what the def accepts
     if prop in ('C04', 'C05', 'C06', 'C07', 'C15', 'C16', 'C13'):
         G += [g_retrieval(prop)]
+    if prop == 'C11':
+        g = g_retrieval(prop)
+        g['tasks'] = [t for t in g['tasks'] if t['args']['mode'] == 'af_function_ua']
+        g['name'] = 'retrieval of a wrapper (own annotations)'
+        G += [g]
     if prop == 'C19':
         g = g_retrieval(prop)
         g['tasks'] = [t for t in g['tasks'] if t['args']['mode'] == 'af_partial']
